@@ -68,3 +68,15 @@ func pruneHoldRelease(idleBefore [2]int64) bool {
 	}
 	return false
 }
+
+// pruneOtherIdle waits until the loop that is not held has finished its request.
+func pruneOtherIdle(loop int, idleBefore int64) bool {
+	deadline := time.Now().Add(20 * time.Second)
+	for time.Now().Before(deadline) {
+		if iavl2.VerifPruneIdleLoop[loop].Load() > idleBefore {
+			return true
+		}
+		time.Sleep(100 * time.Microsecond)
+	}
+	return false
+}
